@@ -4,8 +4,9 @@ from symx.api import *
 
 PROPERTY = 'C08'
 LEVEL = 'model_checking'
-FILES = ['mesonbuild/options.py']
-ENCODED = ['OptionStore.set_from_configure_command (-D sets, -U drops the augment / re-yields)', 'OptionStore.update_project_options (new / removed / re-ranged / re-typed option)',
+INSTRUMENT = dict(prefixes=('mesonbuild.',), exact=('mesonbuild', 'configparser'))
+FILES = ['mesonbuild/options.py', 'mesonbuild/cmdline.py']
+ENCODED = ['cmdline.write_cmd_line_file / update_cmd_line_file / read_cmd_line_file + configparser (stdlib, instrumented)', 'OptionStore.set_from_configure_command (-D sets, -U drops the augment / re-yields)', 'OptionStore.update_project_options (new / removed / re-ranged / re-typed option)',
            'options.choices_are_different', 'OptionStore.set_user_option/set_option/remove/add_project_option', 'OptionStore.get_value_for', 'UserOption.validate_value/set_value',
            'copy.deepcopy of the store standing in for one save/load cycle']
 EXPLANATION = ('The OptionStore is treated as a transition system: a history of lifecycle commands (configure -Dopt=v, -Dsub:opt=v, -Usub:opt, an option-file re-read that adds, removes, '
@@ -15,11 +16,11 @@ EXPLANATION = ('The OptionStore is treated as a transition system: a history of 
                'the persisted store only on success, which is how mconf/msetup save coredata.')
 ASSUMPTIONS = ['copy.deepcopy stands in for the pickle round-trip of coredata.dat (pickle is a C module)', 'one top-level project option, one system option, one subproject',
                'integer values -9..9, ranges within -5..5', 'a yielding boolean option pair (parent / subproject) with symbolic defaults']
-OUT = ('STATED PROMINENTLY: coredata.dat pickling, cmd_line.txt, --wipe replay, rollback of coredata.dat.prev, mconf.run_impl file handling. This check decides the state-transition half of '
-       'C08 (2 of the 5 anchored mechanisms); the file-level half is not decided.')
+OUT = ('STATED PROMINENTLY: coredata.dat pickling, the --wipe run itself (only the cmd_line.txt round trip it relies on is decided), rollback of coredata.dat.prev, mconf.run_impl file handling. '
+       'This check decides the state-transition half of C08 and the recorded-command-line round trip (3 of the 5 anchored mechanisms); kill points of the persistence protocol are C09.')
 MANIFEST = dict(
     text='Bounded model checking of the in-memory option state machine: all command histories up to the bound with symbolic values against a last-value/default reference model. '
-         'Claimed for the in-memory transitions only; persistence files, --wipe and rollback are outside.',
+         'Plus the cmd_line.txt round trip (write/update/read through the real configparser with symbolic values) that --wipe relies on. The --wipe run itself and rollback are outside.',
     note='Partial claim. Trusted: symx engine, z3, the reference model. Bounds: histories of <=2 (quick) / 3 (thorough) commands over 14 command kinds; a configure command is saved iff set_from_configure_command reports a change, as mconf.run_impl does.')
 
 O = ME = None
@@ -166,10 +167,87 @@ def ob_history(n):
     return h
 
 
+# ---------------------------------------------------------------- cmd_line.txt (what --wipe re-derives the configuration from)
+class _WF:
+    def __init__(s, store, name): s.store, s.name, s.parts = store, name, []
+    def write(s, x): s.parts.append(x)
+    def __enter__(s): return s
+    def __exit__(s, *a):
+        t = ''
+        for p in s.parts: t = t + p
+        s.store[s.name] = t; return False
+
+
+class _RF:
+    def __init__(s, text): s.lines = text.splitlines(True)
+    def __iter__(s): return iter(s.lines)
+    def __enter__(s): return s
+    def __exit__(s, *a): return False
+
+
+def classify_cmdline(label, inputs):
+    vals = [v for k, n, v in inputs if k == 'str']
+    if label.startswith('cmd_line.txt') and any(v != v.strip() or '\n' in v or '\r' in v for v in vals):
+        return 'cmd_line.txt does not preserve leading/trailing whitespace or line breaks of an option value'
+    return label
+
+
+def ob_cmdline_file(n):
+    """write_cmd_line_file / update_cmd_line_file / read_cmd_line_file round trip (the real configparser, executed symbolically): what `--wipe` reads back is what the user gave"""
+    def h():
+        import argparse, types
+        from mesonbuild import cmdline as CL
+        import configparser as CP
+        K = O.OptionKey
+        store = {}
+        def fopen(name, mode='r', **k):
+            if 'w' in mode: return _WF(store, name)
+            if name not in store: raise FileNotFoundError(name)
+            return _RF(store[name])
+        fos = types.SimpleNamespace(path=types.SimpleNamespace(join=lambda *a: '/'.join(a), isfile=lambda p: p in store), replace=lambda a, b: store.__setitem__(b, store.pop(a)))
+        saved = (CL.__dict__.get('open'), CL.os, CP.__dict__.get('open'))
+        CL.open = fopen; CL.os = fos; CP.open = fopen
+        try:
+            A = 'a =#\n[%:;\t'
+            v1 = sym_str(n, 'value', alphabet=A)
+            keys = [K('opt'), K('o2', subproject='sub'), K('o3', machine=__import__('mesonbuild.mesonlib', fromlist=['MachineChoice']).MachineChoice.BUILD)]
+            o = argparse.Namespace(cmd_line_options={keys[0]: v1, keys[1]: 'x', keys[2]: 'y'}, cross_file=['c.ini'], native_file=[])
+            CL.write_cmd_line_file('/b', o)
+            exp = {keys[0]: v1, keys[1]: 'x', keys[2]: 'y'}
+            upd = choose(3, 'update')
+            if upd == 1:
+                v2 = sym_str(n, 'value2', alphabet=A)
+                CL.update_cmd_line_file('/b', argparse.Namespace(cmd_line_options={keys[1]: v2}, cross_file=[], native_file=[])); exp[keys[1]] = v2
+            elif upd == 2:
+                CL.update_cmd_line_file('/b', argparse.Namespace(cmd_line_options={keys[1]: None}, cross_file=[], native_file=[])); del exp[keys[1]]
+            back = argparse.Namespace(cmd_line_options={}, cross_file=[], native_file=[])
+            try:
+                CL.read_cmd_line_file('/b', back)
+            except Exception:
+                check(False, 'cmd_line.txt: the file meson wrote can be read back'); return
+            got = back.cmd_line_options
+            check(len(got) == len(exp), 'cmd_line.txt: the same set of options is read back')
+            for k, v in exp.items():
+                g = got.get(k)
+                check(g is not None and len(g) == len(v) and decide(bt_any(eq(g, v))), 'cmd_line.txt: option value read back unchanged')
+            check(back.cross_file == ['c.ini'] and back.native_file == [], 'cmd_line.txt: machine files read back')
+            cover('done')
+        finally:
+            CL.os = saved[1]
+            if saved[0] is None: del CL.open
+            else: CL.open = saved[0]
+            if saved[2] is None: del CP.open
+            else: CP.open = saved[2]
+    return h
+
+
 def obligations(tier):
     q = tier == 'quick'
     out = []
     for n in (1, 2) if q else (1, 2, 3):
         out.append(Obligation('history[%d]' % n, ob_history(n), dict(commands=n, kinds='-Dopt, -Dsub:opt, -Usub:opt, -Dpopt, re-range, remove, re-type, add, failing command, two -D in one command, -D plus a no-op -U in one command, -Dyb (parent boolean), -Dsub:yb / -Usub:yb (yielding boolean)'),
                               labels=('ok', 'failed'), max_paths=20000000))
+    for n in (0, 1, 2) if q else (0, 1, 2, 3):
+        out.append(Obligation('cmdline-file[%d]' % n, ob_cmdline_file(n), dict(value_length=n, alphabet='a space = # newline [ % : ; tab', keys='opt, sub:o2, build.o3', then='nothing | update | delete'),
+                              labels=('done',), max_paths=3000000, classify=classify_cmdline))
     return out
